@@ -14,7 +14,7 @@ POOL = {
     "I": ("*w.ids[U(I, 12)]", 12), "N": ("*w.ids[U(I, 12)]", 12), "S": ("*w.strs[U(I, 12)]", 12),
     "TK": ("*w.tokens[U(I, 6)]", 6), "P": ("*w.prods[U(I, 6)]", 6), "U": ("*w.sums[U(I, 6)]", 6),
     "XL": ("*w.xlists[U(I, 6)]", 6), "A": ("*w.attributes[U(I, 6)]", 6), "X": ("*w.transfers[U(I, 6)]", 6),
-    "As": ("*w.attr_seqs[U(I, 6)]", 6), "D": ("*w.decls[U(I, 9)]", 9), "LK": ("*w.linkages[U(I, 6)]", 6),
+    "As": ("*w.attr_seqs[U(I, 6)]", 6), "D": ("*w.decls[U(I, 11)]", 11), "LK": ("*w.linkages[U(I, 6)]", 6),
     "CC": ("*w.ccs[U(I, 6)]", 6), "NC": ("*w.named_caps[U(I, 6)]", 6), "SR": ("*w.scope_refs[U(I, 6)]", 6),
     "SC": ("*w.scopes[U(I, 6)]", 6), "L": ("*w.literals[U(I, 6)]", 6), "EN": ("*w.enclosures[U(I, 6)]", 6),
     "PA": ("*w.params[U(I, 6)]", 6), "SU": ("*w.substs[U(I, 6)]", 6), "CO": ("*w.constructions[U(I, 6)]", 6),
